@@ -5,7 +5,7 @@
     (tip, tip, distance) entries, distances up to Qeq;  [len0]: a branch length, absent = 0. *)
 From Coq Require Import String ZArith QArith Bool Arith List Permutation.
 From GT Require Import Base.UTree Spec.Obs Spec.Unrooted Model.Reroot Model.Prune
-     Proofs.PruneBase Proofs.PruneStep Proofs.PruneRoot Proofs.Prune.
+     Proofs.PruneBase Proofs.PruneStep Proofs.PruneRoot Proofs.Prune Proofs.PruneSplits.
 Import ListNotations.
 Local Close Scope Q_scope.
 Local Open Scope string_scope.
@@ -62,3 +62,19 @@ Proof.
   - eexists. split; vm_compute; reflexivity.
 Qed.
 Print Assumptions C06_example.
+
+(** splits: [clades t] are the leaf sets below the branches of t.  Every clade of the pruned tree
+    is the restriction of a clade of the input; every non-empty restriction of a clade of the
+    input is, in the pruned tree seen as unrooted, the whole leaf set, one side of a branch, or
+    the other side of a branch ([cover]).  Hence the bipartitions of the result are exactly the
+    restrictions of the bipartitions of the input. *)
+Theorem C06_remove_tips_splits :
+  forall revert names t t',
+    wf t = true -> no_single t = true -> 2 <= degree t -> NoDup (leaves t) ->
+    remove_tips revert names t = Ok t' ->
+    (forall L', In L' (clades t') ->
+                exists L, In L (clades t) /\ Permutation L' (filter (kept revert names) L)) /\
+    (forall L, In L (clades t) -> filter (kept revert names) L <> [] ->
+               cover t' (filter (kept revert names) L)).
+Proof. exact remove_tips_clades. Qed.
+Print Assumptions C06_remove_tips_splits.
